@@ -21,9 +21,10 @@ namespace C10
 enclosing loop, and otherwise the distance (in loop levels, 1 = the directly enclosing loop) of the
 nearest enclosing loop whose variable its start/stop/step expressions reference.  `astmt` is an
 assignment of the form `x = x op e` / `x = e op x` / `x = intr(.., x, ..)` (an atomic update
-statement), `stmt` any other assignment or call, `block` an `if` without `else`. -/
+statement), `stmt` any other assignment or call, `codeBlock` a statement the frontend keeps as an
+opaque `CodeBlock` (e.g. `write`), `block` an `if` without `else`. -/
 inductive Kind where
-  | stmt | astmt | block | loop (dep : Nat)
+  | stmt | astmt | codeBlock | block | loop (dep : Nat)
   | ompParallel | ompDo (c : Nat) | ompParallelDo (c : Nat) | ompTeamsDPD (c : Nat) | ompLoop (c : Nat)
   | ompSingle (nowait : Bool) | ompMaster | ompTaskloop | ompTask | ompTaskwait | ompTarget
   | ompAtomic | ompSimd | ompDeclareTarget
@@ -113,7 +114,8 @@ def isDecl : Kind → Bool
 /-- Nodes that have no statement body in the PSyIR (assignments, calls, stand-alone directives);
 the `body` field of such a node is ignored by every function below. -/
 def isLeaf : Kind → Bool
-  | .stmt | .astmt | .ompTaskwait | .ompDeclareTarget | .accEnterData | .accUpdate | .accRoutine => true
+  | .stmt | .astmt | .codeBlock | .ompTaskwait | .ompDeclareTarget | .accEnterData | .accUpdate
+  | .accRoutine => true
   | _ => false
 
 /-- Ancestors of a node, innermost first; `ctx.any p` is `self.ancestor(p) is not None`. -/
@@ -183,6 +185,13 @@ def containsOmp : Forest → Bool
   | .nil => false
   | .cons k body rest => isOmp k || (!(isLeaf k) && containsOmp body) || containsOmp rest
 
+/-- `self.walk((PSyDataNode, CodeBlock))` of an `ACCRegionDirective` is non-empty (PSyData nodes are
+outside the modelled node set, so this is the CodeBlock half). -/
+def containsCodeBlock : Forest → Bool
+  | .nil => false
+  | .cons k body rest =>
+    k == .codeBlock || (!(isLeaf k) && containsCodeBlock body) || containsCodeBlock rest
+
 /-- `parent_routine.walk(ACCRoutineDirective)` is non-empty. -/
 def containsAccRoutine : Forest → Bool
   | .nil => false
@@ -230,7 +239,7 @@ def guard (b : Bool) : Outcome := if b then .accept else .genError
 `ctx` and body `body`; `env` = whole-routine facts. -/
 def nodeOut (env : Env) (pos : Pos) (ctx : Ctx) (k : Kind) (body : Forest) : Outcome :=
   match k with
-  | .stmt | .astmt | .block | .loop _ | .ompTarget => .accept
+  | .stmt | .astmt | .codeBlock | .block | .loop _ | .ompTarget => .accept
   | .ompTaskwait => guard (ctx.any isPlainPar)
   | .ompSingle _ | .ompMaster =>
     guard (ctx.any isPlainPar && !ctx.any isSerial
@@ -254,11 +263,13 @@ def nodeOut (env : Env) (pos : Pos) (ctx : Ctx) (k : Kind) (body : Forest) : Out
   | .ompSimd => guard (singleLoop body && !simdRegionBad body /- (c) -/)
   | .ompDeclareTarget => guard (ctx.isEmpty && pos == .first)
   | .accParallel | .accKernels | .accData =>
-    guard (!ctx.any isAccCompute && !ctx.any isOmp && !containsOmp body /- (b) -/)
+    guard (!ctx.any isAccCompute && !ctx.any isOmp && !containsOmp body /- (b) -/
+           && !containsCodeBlock body)
   | .accLoop c =>
     guard ((ctx.any isAccCompute || env.ar) && collapseAcc (max c 1) 0 body
-           && !ctx.any isOmp && !containsOmp body /- (b) -/)
-  | .accAtomic => guard (atomicBody body && !ctx.any isOmp && !containsOmp body /- (b) -/)
+           && !ctx.any isOmp && !containsOmp body /- (b) -/ && !containsCodeBlock body)
+  | .accAtomic =>
+    guard (atomicBody body && !ctx.any isOmp && !containsOmp body /- (b) -/ && !containsCodeBlock body)
   | .accEnterData | .accUpdate => guard (!ctx.any isAccCompute /- (d) -/ && !ctx.any isOmp /- (b) -/)
   | .accRoutine => guard (ctx.isEmpty && pos != .later && !env.rb /- (d) -/)
 
@@ -307,7 +318,7 @@ def rectNest : Nat → Nat → Forest → Bool
 /-- Nesting / association rules, one node. -/
 def nodeCore (env : Env) (pos : Pos) (ctx : Ctx) (k : Kind) (body : Forest) : Bool :=
   match k with
-  | .stmt | .astmt | .block | .loop _ | .ompTarget => true
+  | .stmt | .astmt | .codeBlock | .block | .loop _ | .ompTarget => true
   -- property clause 1 ("no loop directive sits outside a parallel region"), applied to every
   -- construct that binds to a team
   | .ompTaskwait => ctx.any isOmpPar
